@@ -860,6 +860,9 @@ func runMiniProp(prop string) runner {
 		n := 350
 		if tier == "thorough" {
 			n = 6000
+			if prop == "C15" {
+				n = 1000 // every cancellation position of every scenario: about 64 cases per scenario
+			}
 		}
 		var cases []string
 		var index []interface{}
